@@ -10,7 +10,11 @@
    instead of the ideal, where it is a recorded finding, is a named deviation (DevCachePut).
 
    Model CID   <<kind, n>>; the kind fixes hash function and digest length (KindSpec) and hence,
-               through CidPolicy!Accepts and the configured allowlist, whether it is Valid.
+               through CidPolicy!Accepts and the configured allowlist, whether it is Valid.  The kind
+               also fixes the FORM of the CID (version + codec): two model CIDs with the same hash
+               function, digest length and n are ALIASES -- different CIDs over one multihash
+               (CIDv1 raw / CIDv1 dag-pb / CIDv0).  Requests, exchange answers and hand-offs are
+               about full CIDs; the blockstore is keyed by multihash (Mh).
    Model block [c |-> cid, ok |-> bytes hash to c].
    A call      one invocation of AddBlock/AddBlocks/GetBlock/GetBlocks/DeleteBlock (directly, via
                a Session, or via a session embedded in the context); calls interleave freely. *)
@@ -19,14 +23,23 @@ EXTENDS CidPolicy
 CONSTANTS Cids,    \* the model CIDs of this run (subset of Kinds \X Nat)
           Devs     \* enabled deviations (open known findings); {} = the ideal
 
-KindSpec == [ sha256   |-> [name |-> "sha2-256",    len |-> 32],
-              trunc16  |-> [name |-> "sha2-256",    len |-> 16],     \* too small
-              shake128 |-> [name |-> "shake-128",   len |-> 32],     \* not allowed by default
-              sha512   |-> [name |-> "sha2-512",    len |-> 64],
-              id4      |-> [name |-> "identity",    len |-> 4],      \* exempt from the minimum
-              id129    |-> [name |-> "identity",    len |-> 129],    \* above the identity cap
-              b2b152   |-> [name |-> "blake2b-152", len |-> 19] ]    \* blake2b below 160 bits
+KindSpec == [ sha256   |-> [name |-> "sha2-256",    len |-> 32,  form |-> "raw1"],
+              trunc16  |-> [name |-> "sha2-256",    len |-> 16,  form |-> "raw1"],   \* too small
+              shake128 |-> [name |-> "shake-128",   len |-> 32,  form |-> "raw1"],   \* not allowed by default
+              sha512   |-> [name |-> "sha2-512",    len |-> 64,  form |-> "raw1"],
+              id4      |-> [name |-> "identity",    len |-> 4,   form |-> "raw1"],   \* exempt from the minimum
+              id129    |-> [name |-> "identity",    len |-> 129, form |-> "raw1"],   \* above the identity cap
+              b2b152   |-> [name |-> "blake2b-152", len |-> 19,  form |-> "raw1"],   \* blake2b below 160 bits
+              \* aliases of sha256: the same multihash under another codec / CID version
+              sha256pb |-> [name |-> "sha2-256",    len |-> 32,  form |-> "pb1"],    \* CIDv1 dag-pb
+              sha256v0 |-> [name |-> "sha2-256",    len |-> 32,  form |-> "pb0"] ]   \* CIDv0
 Kinds  == DOMAIN KindSpec
+\* the multihash of a model CID, named by the raw-CIDv1 kind over the same hash function and length
+CanonKind == [k \in Kinds |-> CHOOSE r \in Kinds : /\ KindSpec[r].name = KindSpec[k].name
+                                                  /\ KindSpec[r].len  = KindSpec[k].len
+                                                  /\ KindSpec[r].form = "raw1"]
+Mh(c)     == <<CanonKind[c[1]], c[2]>>
+MhOf(S)   == {Mh(c) : c \in S}
 SvcAL  == {"default", "svc2"}      \* svc2 = overriding(default, {shake-128: true, sha2-512: false})
 ValidTab == [a \in SvcAL |-> [k \in Kinds |->
                 Accepts(AL[a], Entry(KindSpec[k].name), KindSpec[k].len)]]
@@ -39,7 +52,7 @@ GetOps   == {"GetBlock", "GetBlocks"}
 AddOps   == {"AddBlock", "AddBlocks"}
 
 VARIABLES cfg,      \* configuration of this run
-          local,    \* the blockstore: set of blocks, at most one per CID
+          local,    \* the blockstore: set of [c |-> multihash, ok], at most one per multihash
           calls,    \* active calls: id -> call record
           touched,  \* ghost: REJECTED CIDs ever stored by the service / asked from the exchange / handed to a caller
           last,     \* ghost: the most recent hand-off (block returned by GetBlock / received from GetBlocks), projected
@@ -47,8 +60,11 @@ VARIABLES cfg,      \* configuration of this run
 vars == <<cfg, local, calls, touched, last, dev>>
 
 Valid(c)      == c[1] \in Kinds /\ ValidTab[cfg.al][c[1]]
-Present(c)    == \E b \in local : b.c = c
-LocalBlock(c) == CHOOSE b \in local : b.c = c
+\* the store is keyed by multihash: a block put under one CID is found under each of its aliases,
+\* and a lookup answers with the CID that was asked for
+Present(c)    == \E b \in local : b.c = Mh(c)
+LocalBlock(c) == [c |-> c, ok |-> (CHOOSE b \in local : b.c = Mh(c)).ok]
+Stored(b)     == [c |-> Mh(b.c), ok |-> b.ok]
 ToSet(s)      == {s[i] : i \in 1..Len(s)}
 InSeq(s, x)   == \E i \in 1..Len(s) : s[i] = x
 RemoveOne(s, x) == LET i == CHOOSE j \in 1..Len(s) : s[j] = x /\ \A k \in 1..(j-1) : s[k] # x
@@ -69,7 +85,8 @@ NewCall(op, sess, keys, args) ==
      infl  |-> <<>>,                          \* blocks handed back by the exchange, not yet consumed
      ndl   |-> 0,                             \* number of blocks the exchange handed back so far
      ready |-> <<>>,                          \* blocks cleared for hand-off: [b, src]
-     exdone |-> FALSE, exerr |-> FALSE]       \* exchange closed its channel / returned an error
+     exdone |-> FALSE, exerr |-> FALSE,       \* exchange closed its channel / returned an error
+     failed |-> FALSE]                        \* a Put/PutMany of this call on the local store failed
 
 Upd(id, r)  == calls' = [calls EXCEPT ![id] = r]
 Drop(id)    == calls' = [i \in DOMAIN calls \ {id} |-> calls[i]]
@@ -81,15 +98,15 @@ Init == /\ cfg \in Cfgs /\ local = {} /\ calls = << >> /\ last = NoHand /\ dev =
 
 (* ---- environment: callers ------------------------------------------------------------- *)
 \* blocks put straight into the blockstore, behind the service's back (honest ones only)
-Preload(b) == /\ Quiet /\ b.ok /\ ~Present(b.c) /\ local' = local \cup {b}
+Preload(b) == /\ Quiet /\ b.ok /\ ~Present(b.c) /\ local' = local \cup {Stored(b)}
               /\ UNCHANGED <<cfg, calls, touched, last, dev>>
 
 Call(id, op, sess, keys, args) ==
     /\ ~Active(id)
     /\ calls' = [i \in DOMAIN calls \cup {id} |-> IF i = id THEN NewCall(op, sess, keys, args) ELSE calls[i]]
     \* environment assumption: no DeleteBlock concurrent with a Get of the same CID
-    /\ op = "DeleteBlock" => \A i \in DOMAIN calls : calls[i].op \in GetOps => keys \cap calls[i].keys = {}
-    /\ op \in GetOps => \A i \in DOMAIN calls : calls[i].op = "DeleteBlock" => keys \cap calls[i].keys = {}
+    /\ op = "DeleteBlock" => \A i \in DOMAIN calls : calls[i].op \in GetOps => MhOf(keys) \cap MhOf(calls[i].keys) = {}
+    /\ op \in GetOps => \A i \in DOMAIN calls : calls[i].op = "DeleteBlock" => MhOf(keys) \cap MhOf(calls[i].keys) = {}
     /\ UNCHANGED <<cfg, local, touched, last, dev>>
 
 (* ---- the service: blockstore operations ----------------------------------------------- *)
@@ -114,13 +131,19 @@ GetRes(c) == IF Present(c) THEN [found |-> TRUE, ok |-> LocalBlock(c).ok] ELSE [
 AddPut(id, S) ==
     /\ Active(id) /\ calls[id].op \in AddOps
     /\ S \subseteq calls[id].args /\ \A b \in S : Valid(b.c)
-    /\ local' = local \cup {b \in S : ~Present(b.c)}
+    /\ local' = local \cup {Stored(b) : b \in {x \in S : ~Present(x.c)}}
     /\ touched' = [touched EXCEPT !.stored = @ \cup Rejected(CidsOf(S))]
     /\ UNCHANGED <<cfg, calls, last, dev>>
+\* FAULT (environment): the Put/PutMany fails (IO error, full disk, closed datastore) -- nothing is written
+AddPutFail(id, S) ==
+    /\ Active(id) /\ calls[id].op \in AddOps
+    /\ S \subseteq calls[id].args /\ \A b \in S : Valid(b.c)
+    /\ Upd(id, [calls[id] EXCEPT !.failed = TRUE])
+    /\ UNCHANGED <<cfg, local, touched, last, dev>>
 
 BsDelete(id, c) ==
     /\ Active(id) /\ calls[id].op = "DeleteBlock" /\ c \in calls[id].keys
-    /\ local' = {b \in local : b.c # c}
+    /\ local' = {b \in local : b.c # Mh(c)}
     /\ UNCHANGED <<cfg, calls, touched, last, dev>>
 
 (* ---- the service: exchange fallback ----------------------------------------------------- *)
@@ -151,7 +174,7 @@ ExEnd(id, err) ==
 CacheEffect(id, b, rdy, d) ==
     /\ Upd(id, [calls[id] EXCEPT !.infl = RemoveOne(@, b),
                                  !.ready = IF rdy THEN Append(@, [b |-> b, src |-> "ex"]) ELSE @])
-    /\ local' = IF Present(b.c) THEN local ELSE local \cup {b}
+    /\ local' = IF Present(b.c) THEN local ELSE local \cup {Stored(b)}
     /\ touched' = [touched EXCEPT !.stored = @ \cup Rejected({b.c})]
     /\ dev' = dev \cup d
     /\ UNCHANGED <<cfg, last>>
@@ -159,6 +182,14 @@ CachePut(id, b) ==
     /\ Active(id) /\ calls[id].op \in GetOps /\ InSeq(calls[id].infl, b)
     /\ Valid(b.c) /\ b.ok
     /\ CacheEffect(id, b, b.c \in calls[id].want, {})
+\* FAULT (environment): the caching Put fails.  Nothing is written and -- the point of
+\* CachedBeforeHandOff -- the block does NOT become ready: a fetched block that could not be cached is
+\* never announced (Notify demands Present) nor handed to the caller (Recv/ReturnBlock demand ready).
+CachePutFail(id, b) ==
+    /\ Active(id) /\ calls[id].op \in GetOps /\ InSeq(calls[id].infl, b)
+    /\ Valid(b.c)
+    /\ Upd(id, [calls[id] EXCEPT !.infl = RemoveOne(@, b), !.failed = TRUE])
+    /\ UNCHANGED <<cfg, local, touched, last, dev>>
 \* AS BUILT (findings C05-exchange-unrequested / C05-exchange-unverified): whatever the exchange
 \* hands back is stored and handed to the caller.
 DevName(id, b) == IF b.c \notin calls[id].want THEN "Dev_C05_ExchangeUnrequested"
@@ -174,11 +205,12 @@ Notify(id, S) == /\ Active(id) /\ cfg.ex # "none" /\ \A c \in S : Present(c) /\ 
 
 (* ---- hand-off to the caller ------------------------------------------------------------ *)
 HandRec(id, e) == [op        |-> calls[id].op,
+                   \* (FULL CIDs: an alias of a requested CID -- same multihash, other codec/version -- is NOT requested)
                    requested |-> e.b.c \in calls[id].keys,        \* its CID is one the caller asked for
                    exact     |-> calls[id].keys = {e.b.c},        \* ... is THE CID asked for (GetBlock)
                    hashok    |-> e.b.ok,                          \* its bytes hash to its CID
                    src       |-> e.src,                           \* "local" | "ex"
-                   inlocal   |-> Present(e.b.c)]                  \* it is in the blockstore right now
+                   inlocal   |-> Present(e.b.c)]                  \* its multihash is in the blockstore right now
 FirstReady(id, b) == LET r == calls[id].ready IN
                      CHOOSE i \in 1..Len(r) : r[i].b = b /\ \A k \in 1..(i-1) : r[k].b # b
 \* one block received from the channel returned by GetBlocks
@@ -210,8 +242,8 @@ ReturnErr(id, class) ==
        CASE r.op = "GetBlock"    -> /\ r.ready = <<>>
                                     /\ (class = "verifcid") = (r.req = {})
                                     /\ class # "verifcid" => Complete(id)
-         [] r.op \in AddOps      -> /\ class = "verifcid"
-                                    /\ \E b \in r.args : ~Valid(b.c)
+         [] r.op \in AddOps      -> \/ class = "verifcid" /\ \E b \in r.args : ~Valid(b.c)
+                                    \/ class = "other" /\ r.failed          \* the store's error is passed on
          [] OTHER                -> FALSE
     /\ Drop(id) /\ UNCHANGED <<cfg, local, touched, last, dev>>
 ReturnOK(id) ==
@@ -224,7 +256,7 @@ ReturnOK(id) ==
 
 (* ---- invariants: the two properties ------------------------------------------------------ *)
 TypeOK == /\ cfg \in Cfgs
-          /\ \A b \in local : b.c \in Cids /\ \A d \in local : d.c = b.c => d = b
+          /\ \A b \in local : b.c \in Cids /\ b.c = Mh(b.c) /\ \A d \in local : d.c = b.c => d = b
           /\ dev \subseteq Devs
 \* C04: a CID the validator rejects is never stored, never asked from the exchange, never handed out
 P_RejectedNeverTouched == touched.stored \cup touched.asked \cup touched.handed = {}
@@ -239,6 +271,9 @@ GetBlockExact        == dev = {} => P_GetBlockExact
 SelfCertified        == dev = {} => P_SelfCertified
 \* C05: a block obtained from the exchange is in the local store when the caller gets it
 CachedBeforeHandOff  == (last.op # "none" /\ last.src = "ex") => last.inlocal
+\* ... and already while it waits for its hand-off (a failed caching Put never makes a block ready)
+ReadyCached          == \A id \in DOMAIN calls : \A i \in 1..Len(calls[id].ready) :
+                            calls[id].ready[i].src = "ex" => Present(calls[id].ready[i].b.c)
 \* C05: the exchange is only ever asked for CIDs this call found absent at the time it looked
 LocalNotFetched      == \A id \in DOMAIN calls : calls[id].want \subseteq calls[id].miss
 =============================================================================
